@@ -14,7 +14,7 @@ print("error:", results[0].error)
 for o in results[0].obls:
     if not o.name.endswith(suffix):
         continue
-    s = z3.SolverFor("QF_AUFLIA") if scope else z3.Solver()
+    s = z3.Solver()
     s.set("timeout", 20000)
     s.add(*o.hyps); s.add(*(CTX.scope_constraints if scope else [])); s.add(z3.Not(o.goal))
     r = s.check()
